@@ -82,6 +82,8 @@ class SshMessageBase(ParsableBase):
 
 @attr.s
 class SshProtocolMessage(ParsableBase):
+    _LENGTH_MAX = 255
+
     protocol_version = attr.ib(validator=attr.validators.instance_of(SshProtocolVersion))
     software_version = attr.ib(validator=attr.validators.instance_of(SshSoftwareVersionBase))
     comment = attr.ib(validator=attr.validators.optional(attr.validators.instance_of(six.string_types)), default=None)
@@ -111,8 +113,11 @@ class SshProtocolMessage(ParsableBase):
         parser.parse_string_until_separator('software_version_and_comment', '\n')
         software_version_and_comment = parser['software_version_and_comment'].split(' ')
 
+        composed_length = parser.parsed_length + len('\n')
         if software_version_and_comment[-1].endswith('\r'):
             software_version_and_comment[-1] = software_version_and_comment[-1][:-1]
+        else:
+            composed_length += len('\r')
 
         software_version_parser = ParserText(six.ensure_binary(software_version_and_comment[0], 'ascii'))
         try:
@@ -126,8 +131,8 @@ class SshProtocolMessage(ParsableBase):
             comment = None
         parser.parse_string('separator', '\n')
 
-        if parser.parsed_length > 255:
-            raise TooMuchData(parser.parsed_length - 255)
+        if composed_length > cls._LENGTH_MAX:
+            raise TooMuchData(composed_length - cls._LENGTH_MAX)
 
         return SshProtocolMessage(
             parser['protocol_version'],
@@ -147,6 +152,9 @@ class SshProtocolMessage(ParsableBase):
             composer.compose_separator(' ')
             composer.compose_string(self.comment)
         composer.compose_separator('\r\n')
+
+        if len(composer.composed) > self._LENGTH_MAX:
+            raise InvalidValue(len(composer.composed), type(self), 'length')
 
         return composer.composed
 
